@@ -1,20 +1,20 @@
-\* repaired design, 3 workers, budget above the pool (checks/c18.py generates the other configurations from this shape)
+\* sequential (non-threaded) loop of constructSurrogate
 SPECIFICATION FairSpec
 CONSTANTS
   HUGE = 1000000
-  NW = 3
-  NP = 4
-  BUDGET = 6
+  NW = 2
+  NP = 5
+  BUDGET = 9
   BATCH = 1
-  PAR = TRUE
+  PAR = FALSE
   GUARD = TRUE
   INIT0 = 0
   EAGER = 1000
   RNUM = 1
   RDEN = 5
   REORDER = TRUE
-  MAXCHG = 1
+  MAXCHG = 2
   SPURIOUS = TRUE
-  INITFULL = TRUE
+  INITFULL = FALSE
 INVARIANTS SeqNextFindsJob AtMostOnce BudgetOK NoSameThreadConcurrent ValueAtItsPoint NoRace FlagCoherent ManagerCoherent LaunchedCoherent FinalOK
 PROPERTY Termination
